@@ -579,3 +579,6 @@ def check_ident(ident, fi, r, call):
 
 def known_match(case, failure, entry):
     return bool(case.get("no_exclude")) and entry["key"] in failure.get("known_keys", [])
+
+
+RULE += (" " + 'A closing scenario moves a GR image to an external file before / after writing / after reading / in a second session: after GRendaccess and GRend the file must close and the image read back.')
